@@ -109,6 +109,8 @@ class PyIndex:
             for fn_ in [n_ for n_ in ast.walk(tree) if isinstance(n_, (ast.FunctionDef, ast.AsyncFunctionDef))]:
                 if any(isinstance(x_, ast.For) for x_ in ast.walk(fn_)):
                     fn_.body = unroll_literal_loops(fn_).body
+                if any(isinstance(x_, ast.For) and isinstance(x_.iter, ast.Name) for x_ in ast.walk(fn_)):
+                    fn_.body = expand_accumulated_lists(fn_).body
             m = Module(name, p, p.relative_to(self.root).as_posix(), tree, source)
             self.modules[name] = m
             self._index_module(m)
@@ -859,3 +861,90 @@ def unroll_literal_loops(func_node: ast.AST, max_items: int = 8) -> ast.AST:
             return out
     res = _U().visit(fn)
     return ast.fix_missing_locations(res)
+
+
+def expand_accumulated_lists(func_node: ast.AST) -> ast.AST:
+    """copy of the function in which `xs = []; if c1: xs.append(a); if c2: xs.append(b); for x in xs: BODY` reads
+    `...; if c1: BODY[x:=a]; if c2: BODY[x:=b]` - a conditionally filled work list applied in a loop is the conditional sequence of calls
+    it stands for.  Only for a local list that is initialised empty (or from a literal) in the same block, filled by plain appends of
+    expressions whose guards are not re-assigned before the loop, and a loop body that neither mentions the list nor leaves early."""
+    import copy
+    fn = copy.deepcopy(func_node)
+
+    def try_block(block):
+        changed = False
+        for idx, st in enumerate(list(block)):
+            if not (isinstance(st, ast.For) and isinstance(st.iter, ast.Name) and isinstance(st.target, ast.Name) and not st.orelse):
+                continue
+            L, v = st.iter.id, st.target.id
+            body_nodes = [x for b in st.body for x in ast.walk(b)]
+            if any(isinstance(x, (ast.Break, ast.Continue, ast.FunctionDef, ast.Lambda)) for x in body_nodes) or \
+                    any(isinstance(x, ast.Name) and x.id == L for x in body_nodes) or \
+                    any(isinstance(x, ast.Name) and x.id == v and isinstance(x.ctx, (ast.Store, ast.Del)) for x in body_nodes):
+                continue
+            before = block[:idx]
+            init_i = None
+            for i_, b in enumerate(before):
+                tg = b.targets[0] if isinstance(b, ast.Assign) and len(b.targets) == 1 else (b.target if isinstance(b, ast.AnnAssign) and b.value is not None else None)
+                if isinstance(tg, ast.Name) and tg.id == L:
+                    init_i = i_
+            if init_i is None:
+                continue
+            init = before[init_i].value
+            if isinstance(init, ast.List):
+                items = [(e, ()) for e in init.elts]
+            elif isinstance(init, ast.Call) and isinstance(init.func, ast.Name) and init.func.id == "list" and not init.args:
+                items = []
+            else:
+                continue
+            ok = True
+            assigned_after = {}
+            for st2, g in walk_guarded(before[init_i + 1:]):
+                uses = [x for x in ast.walk(st2) if isinstance(x, ast.Name) and x.id == L] if not isinstance(st2, (ast.If, ast.For, ast.While, ast.With, ast.Try)) else []
+                if uses:
+                    c = st2.value if isinstance(st2, ast.Expr) else None
+                    if isinstance(c, ast.Call) and isinstance(c.func, ast.Attribute) and c.func.attr == "append" and isinstance(c.func.value, ast.Name) \
+                            and c.func.value.id == L and len(c.args) == 1 and len(uses) == 1:
+                        items.append((c.args[0], tuple(g)))
+                        for t_, _p in g:
+                            for nm in ast.walk(t_):
+                                if isinstance(nm, ast.Name):
+                                    assigned_after.setdefault(nm.id, st2.lineno)
+                    else:
+                        ok = False
+                elif isinstance(st2, (ast.Assign, ast.AugAssign, ast.AnnAssign)):
+                    for t_ in ast.walk(st2):
+                        if isinstance(t_, ast.Name) and isinstance(t_.ctx, ast.Store) and t_.id in assigned_after and st2.lineno > assigned_after[t_.id]:
+                            ok = False
+            if any(isinstance(x, (ast.For, ast.While)) and any(isinstance(y, ast.Name) and y.id == L for y in ast.walk(x)) for x in before[init_i + 1:]):
+                ok = False       # filled inside a loop: not a fixed sequence
+            if not ok or not items:
+                continue
+            new_stmts = []
+            for expr, guards in items:
+                class _B(ast.NodeTransformer):
+                    def visit_Name(self, n):
+                        return copy.deepcopy(expr) if isinstance(n.ctx, ast.Load) and n.id == v else n
+                body = [ast.copy_location(_B().visit(copy.deepcopy(b)), b) for b in st.body]
+                for t_, pol in reversed(guards):
+                    test = copy.deepcopy(t_) if pol else ast.UnaryOp(op=ast.Not(), operand=copy.deepcopy(t_))
+                    body = [ast.copy_location(ast.If(test=test, body=body, orelse=[]), st)]
+                new_stmts.extend(body)
+            block[idx:idx + 1] = new_stmts
+            changed = True
+            break
+        return changed
+
+    def visit(node):
+        for field in ("body", "orelse", "finalbody"):
+            blk = getattr(node, field, None)
+            if isinstance(blk, list) and blk and isinstance(blk[0], ast.stmt):
+                while try_block(blk):
+                    pass
+                for ch in blk:
+                    if not isinstance(ch, (ast.FunctionDef, ast.AsyncFunctionDef, ast.ClassDef)):
+                        visit(ch)
+        for h in getattr(node, "handlers", []) or []:
+            visit(h)
+    visit(fn)
+    return ast.fix_missing_locations(fn)
